@@ -469,7 +469,7 @@ func clDecodeItemDiscipline(c *Ctx) {
 	cnt := counter{}
 	// every use of the stream is a FULL read: a plain Read may return fewer
 	// bytes without an error (buffer boundaries), which desynchronises framing
-	rd := ssa.Value(fn.Params[3])
+	rd := strip(fn.Params[3])
 	for _, r := range referrersOf(rd) {
 		in, ok := r.(ssa.Instruction)
 		if !ok {
